@@ -366,6 +366,10 @@ def expand(kind, hist, acc):
         except CaseTimeout:
             acc.violation('timeout', case, 'termination', 'timeout')
             continue
+        except Exception as e:
+            acc.violation('unexpected-exception:%s:%s' % (op[0], type(e).__name__), case, 'no exception', repr(e)[:300],
+                          'observing the object after this history raised an exception')
+            continue
         acc.evaluations += 1
         acc.transitions += 1
         acc.traces += 1
